@@ -22,7 +22,9 @@ struct Node {
     int type = T_I32;       // leaves
     int rep = REQ;
     int tlen = 0;           // FLBA
-    int logical = 0;        // 0 none, 1 STRING(UTF8) ... (peer may annotate)
+    int logical = 0;        // 0 none, else the field id of the LogicalType union in parquet.thrift: 1 STRING 2 MAP 3 LIST 4 ENUM 5 DECIMAL 6 DATE
+                            // 7 TIME 8 TIMESTAMP 10 INTEGER 11 UNKNOWN(null) 12 JSON 13 BSON 14 UUID 15 FLOAT16 (peer may annotate)
+    int lp1 = 0, lp2 = 0;   // DECIMAL: scale, precision; TIME/TIMESTAMP: isAdjustedToUTC, unit (1 millis 2 micros 3 nanos); INTEGER: bitWidth, isSigned
     std::vector<Node> kids; // groups
 };
 
@@ -52,6 +54,7 @@ struct Table {
     Node root;                 // root.kids = top-level fields
     std::vector<Col> cols;     // leaves in depth-first order (derived from root)
     std::vector<RowGroup> rgs;
+    bool want_big_pages = false;   // generator hint: content only bites when a page holds all of it (LZ window scenarios)
 };
 
 static inline int fixed_width(int type, int tlen) {
